@@ -156,6 +156,20 @@ func (x *c17Gen) setMeta(c int, mode string) string {
 			}
 		}
 		return fmt.Sprintf("setmeta %d %d %d %d %d %d %s %s * * * *", c, r.Range(2, 5), r.Range(2, 6), m.leader, 1, 150, c17Join(m.replicas), c17Join(m.isr))
+	case "fullisr": // minISR = |replicas| with the live replica-replace learner counted: an abort would then shrink below minISR
+		if !m.set {
+			return x.setMeta(c, "fresh")
+		}
+		reps := append([]int(nil), m.replicas...)
+		if t := x.live(c); t != nil && t.kind == 2 && t.phase >= 21 && t.phase <= 25 {
+			reps = append(reps, t.tgt)
+		}
+		for _, t := range x.tasks {
+			if t.c == c {
+				t.badProof = true
+			}
+		}
+		return fmt.Sprintf("setmeta %d %d %d %d %d %d %s %s * * * *", c, r.Range(2, 5), r.Range(2, 6), m.leader, len(reps), 150, c17Join(reps), c17Join(m.isr))
 	case "foreignfence": // a fence held by some other token / version
 		if !m.set {
 			return x.setMeta(c, "fresh")
@@ -600,7 +614,7 @@ func genC17(g *Gen) {
 			switch {
 			case r.Chance(4):
 				c := 1 + r.Intn(2)
-				mode := []string{"bump", "bump", "bump", "foreignfence", "fresh", "junk"}[r.Intn(6)]
+				mode := []string{"bump", "bump", "bump", "foreignfence", "foreignfence", "fullisr", "fresh", "junk"}[r.Intn(8)]
 				g.Count("env:setmeta-" + mode)
 				x.emit(x.setMeta(c, mode))
 			case r.Chance(9):
